@@ -275,7 +275,31 @@ static uint64_t run_lp_cl(const TinyLP& t, const XLP& x, const Classification& c
          if(!spx.hasBasis()) continue;
          XLP x2 = m2.tiny().exact();
          std::string r = check_state(spx, m2, x2, false, c);
-         if(!r.empty()) viol(r, std::string("after-") + OPNAME[ops[k].kind]);
+         if(!r.empty()) { viol(r, std::string("after-") + OPNAME[ops[k].kind]); continue; }
+         // ... and the kept basis is a correct warm start for the modified LP: re-optimise from it, then the basis the solve leaves must again be valid and regular
+         // (a column fixed while basic, a row made an equation while basic, ... leave the basis through branches a solve from scratch never takes)
+         if(m2.n() == 0) continue;
+         bool nbFreeRow = false;
+         {
+            std::vector<SPxSolver::VarStatus> rs(m2.m() + 1), csx(m2.n() + 1);
+            spx.getBasis(rs.data(), csx.data());
+            for(int i = 0; i < m2.m(); ++i) if(rs[i] == SPxSolver::ZERO) nbFreeRow = true;
+         }
+         int st = 0;
+         try { st = (int)spx.optimize(); }
+         catch(const SPxException& e) { viol(std::string("exception|") + e.what(), std::string("reoptimize-after-") + OPNAME[ops[k].kind] + (nbFreeRow ? "+nonbasic-free-row" : "")); continue; }
+         c.count("reoptimisations_after_modification");
+         if(spx.hasBasis())
+         {
+            std::string r2 = check_state(spx, m2, x2, true, c);
+            if(!r2.empty()) { viol(r2, std::string("reoptimize-after-") + OPNAME[ops[k].kind] + (nbFreeRow ? "+nonbasic-free-row" : "")); continue; }
+         }
+         if(!medium)
+         {
+            Classification cl2 = classify(x2);
+            std::string j = judge_status(st, spx.objValueReal(), cl2);
+            if(!j.empty()) viol("re-optimisation from the kept basis: " + j, std::string("reoptimize-after-") + OPNAME[ops[k].kind] + (nbFreeRow ? "+nonbasic-free-row" : ""));
+         }
       }
    }
    return h;
